@@ -128,6 +128,9 @@ func (s *Solver) ref(t *Term) string {
 		parts := make([]string, len(t.Args))
 		for i, a := range t.Args {
 			parts[i] = s.ref(a)
+			if strings.HasPrefix(t.Op, "fp.") {
+				parts[i] = "((_ to_fp 11 53) " + parts[i] + ")"
+			}
 		}
 		s.send(fmt.Sprintf("(define-fun %s () %s (%s %s))", name, SortOf(t.W), headOf(t), strings.Join(parts, " ")))
 	}
